@@ -34,8 +34,13 @@ def refused(d: Ref['Deferred']) -> bool:
 
 @spec
 def any_state(self: Ref['mqtt.client.pubsubs.MQTTProtocol']) -> bool:
-    """what holds in every protocol state; while connected every pending entry is driven by its timer"""
-    return base_ok(self) and implies(self.state == self.CONNECTED, alarms_set(self))
+    """what holds in every protocol state; while connected every pending entry is driven by its timer; while
+    connecting there is exactly one guarded connect Deferred; SUBSCRIBE/UNSUBSCRIBE requests exist only while connected"""
+    return (base_ok(self) and implies(self.state == self.CONNECTED, alarms_set(self))
+            and implies(self.state == self.CONNECTING, connecting(self) and conn_deferred_owned(self))
+            and implies(not (self.state == self.CONNECTED),
+                        forall(lambda k: not contains(S(self), k)) and forall(lambda k: not contains(U(self), k))
+                        and is_none(self._pingReq.timer) and is_none(self._pingReq.alarm)))
 
 
 @contract('mqtt.client.pubsubs.MQTTProtocol.publish', props=['C14', 'C05', 'C10', 'C20', 'C18'], classes=PROFILES)
@@ -86,3 +91,40 @@ def _(self: Ref['mqtt.client.pubsubs.MQTTProtocol']):
     ensures_raise(out(self) == old(out(self)) and unchanged(self.transport.tr_closes))
     # DISCONNECT is written only here, together with the request to close
     ensures(out(self) == old(out(self)) + lb(sDISCONNECT()) and self.transport.tr_closes == old(self.transport.tr_closes) + 1)
+
+
+@contract('mqtt.client.base.MQTTBaseProtocol.connect', props=['C14', 'C04', 'C20', 'C18', 'C02'], classes=PROFILES)
+def _(self: Ref['mqtt.client.pubsubs.MQTTProtocol'], clientId: Str, keepalive: int, willTopic: Any, willMessage: Any, willQoS: int,
+      willRetain: bool, username: Any, password: Any, cleanStart: bool, version: Ver) -> Ref['Deferred']:
+    requires(is_obj(self.addr))
+    requires(any_state(self))
+    requires((is_none(willTopic) or is_str(willTopic)) and (is_none(willMessage) or is_str(willMessage))
+             and (is_none(username) or is_str(username)) and (is_none(password) or is_str(password)))
+    bad = (not (0 <= willQoS and willQoS <= 2) or not (0 <= keepalive and keepalive <= 65535)
+           or (version == v31 and strlen(clientId) > 23) or not (version == v31 or version == v311)
+           or (is_str(willMessage) and is_none(willTopic)) or (is_none(willMessage) and is_str(willTopic))
+           or (is_none(username) and is_str(password)) or not sok(clientId)
+           or (is_str(willTopic) and not (sok(willTopic) and sok(willMessage)))
+           or (is_str(username) and not sok(username)) or (is_str(password) and not sok(password)))
+    idle = self.state == self.IDLE
+    modifies(self._cleanStart, self._version, self.transport.tr_out, self.state, self.connReq, allocates())
+    ensures(base_ok(self))
+    ensures(implies(self.state == self.CONNECTED, alarms_set(self)))
+    ensures(implies(self.state == self.CONNECTING, connecting(self)))
+    ensures(implies(self.state == self.CONNECTING, conn_deferred_owned(self)))
+    ensures(implies(not (self.state == self.CONNECTED), forall(lambda k: not contains(S(self), k)) and forall(lambda k: not contains(U(self), k))
+                    and is_none(self._pingReq.timer) and is_none(self._pingReq.alarm)))
+    ensures(is_bool(result.d_fired))
+    # honoured only on an idle protocol
+    ensures(implies(not idle, refused(result) and out(self) == old(out(self)) and unchanged(self.state, self.connReq)))
+    # invalid arguments: ValueError, nothing written, no timer, still idle
+    ensures(implies(idle and bad, result.d_fired and not result.d_ok and is_exc(result.d_val) and not (result.d_val == exc('MQTTStateError'))
+                    and out(self) == old(out(self)) and unchanged(self.state, self.connReq)))
+    # valid arguments: exactly one CONNECT, now connecting
+    ensures(implies(idle and not bad,
+                    out(self) == old(out(self)) + lb(sCONNECT(version, cleanStart, is_str(willTopic), willQoS, willRetain, willTopic,
+                                                             willMessage, is_str(username), username, is_str(password), password,
+                                                             keepalive, clientId))
+                    and self.state == self.CONNECTING and result == self.connReq.deferred and not result.d_fired
+                    and num(self.connReq.alarm.t_delay) == (num(keepalive) if keepalive != 0 else 10)
+                    and self.connReq.keepalive == keepalive and self._cleanStart == cleanStart and self._version == version))
